@@ -6,6 +6,7 @@ import Driver.PduOps
 import Driver.ScalarOps
 import Driver.Gsm7Ops
 import Driver.CombinerOps
+import Driver.CodingOps
 
 open Driver
 
@@ -24,7 +25,10 @@ def step (line : String) : String :=
         | none =>
           match combinerOp op args with
           | some r => r
-          | none => "bad-op"
+          | none =>
+            match codingOp op args with
+            | some r => r
+            | none => "bad-op"
 
 partial def loop (h : IO.FS.Stream) (out : IO.FS.Stream) : IO Unit := do
   let line ← h.getLine
